@@ -529,6 +529,13 @@ fn corrupt_compressed(c: &mut Ctx, z: &Envelope) {
 /// C14 on a pool of envelopes (the first is the reference): all pairwise relations against independently computed ones
 pub(crate) fn c14_pool(c: &mut Ctx, pool: &[String]) {
     let orig = match c.env(&pool[0]) { Some(x) => x, None => return };
+    // identity is preserved by encoding and decoding - for every member, whatever its pattern of obscured positions
+    for x in pool.iter().take(8) {
+        let r = c.assign(&format!("recode {}", x));
+        c.obs(&format!("eq {} {}", x, r));
+        if let (Some(a), Some(b2)) = (c.env(x), c.env(&r)) { c.check("decode-preserves-identity", a.is_identical_to(&b2) && a == b2 && a.structural_digest() == b2.structural_digest(), "decode-preserves-identity", || format!("{} decoded from its own encoding is {}", shape(&a), shape(&b2))); }
+        else { c.check("decode-preserves-identity", false, "decode-preserves-identity", || "the encoding does not decode".into()); }
+    }
         for x in pool.iter() { c.obs(&format!("sdigest {}", x)); }
         let envs: Vec<Envelope> = pool.iter().map(|r| c.env(r).unwrap()).collect();
         for (i, x) in pool.iter().enumerate() { for (j, y) in pool.iter().enumerate() {
@@ -600,6 +607,35 @@ pub fn c14(c: &mut Ctx, b: &Budget) {
             }
         }
         c14_pool(c, &pool);
+        // obscuring a present element always changes identity and never equivalence - also the second time round, on an envelope
+        // that already has obscured parts (e.g. a node whose subject is obscured, targeted as a whole)
+        let mut cur = e.clone();
+        for round in 0..3 {
+            let env = match c.env(&cur) { Some(x) => x, None => break };
+            // a position whose element is present (nothing obscured at or above it)
+            let cands: Vec<(String, Envelope)> = elements(&env).into_iter().filter(|(p, x)| !x.is_obscured() && {
+                let mut ok = true; let mut q = p.clone();
+                while let Some(i) = q.rfind('/') { q.truncate(i); if path_at(&env, &q).map(|z| z.is_obscured()).unwrap_or(false) { ok = false; } }
+                ok }).collect();
+            if cands.is_empty() { break; }
+            // prefer, in later rounds, a node whose subject is already obscured
+            let pick = cands.iter().find(|(_, x)| round > 0 && x.is_node() && x.subject().is_obscured()).cloned().unwrap_or_else(|| c.rng.pick(&cands).clone());
+            let t = c.assign(&format!("at {} {}", cur, pick.0));
+            let act = if round == 0 { // first round: obscure a subject, so that later rounds can meet "node with obscured subject"
+                    gen_action(c) } else { ["compress".to_string(), "elide".to_string(), format!("encrypt:{}", KEY1)][c.rng.below(3)].clone() };
+            let tgt = if round == 0 && env.is_node() { c.assign(&format!("at {} s", cur)) } else { t };
+            let tenv = c.env(&tgt);
+            let next = c.assign(&format!("elide_set {} rem {} {}", cur, act, tgt));
+            c.obs(&format!("eq {} {}", cur, next));
+            if let (Some(nx), Some(te)) = (c.env(&next), tenv) {
+                if !te.is_obscured() {
+                    c.check("obscuring-changes-identity", nx.is_equivalent_to(&env) && !nx.is_identical_to(&env) && nx != env, "obscured-equivalent-not-identical",
+                        || format!("round {}: after the {} action on the present element {} of {} the result {} is {}", round, act, shape(&te), shape(&env), shape(&nx), if nx.is_identical_to(&env) { "identical to the input" } else { "not equivalent" }));
+                    c.count("branch:obscure-present-element");
+                }
+                cur = next;
+            } else { break; }
+        }
         c.end();
     }
 }
